@@ -54,7 +54,7 @@ def new_salt(ctx):
     return f"s{ctx.shard}n{_salt_counter[0]}"
 
 
-def make_case(ctx, features=None, max_classes=4, max_fields=5, n_objs=3, default_ns=None, max_depth=3, json_mode=False, boost=()):
+def make_case(ctx, features=None, max_classes=4, max_fields=5, n_objs=3, default_ns=None, max_depth=3, json_mode=False, boost=(), adjacent_text=False):
     rng = ctx.rng
     if default_ns is None:
         default_ns = rng.random() < 0.5
@@ -67,6 +67,7 @@ def make_case(ctx, features=None, max_classes=4, max_fields=5, n_objs=3, default
         model.future_annotations = True
     loaded = ir.load(model, style)
     ig = ir.InstGen(rng, loaded, max_depth=max_depth, default_ns=default_ns, json_mode=json_mode)
+    ig.adjacent_text = adjacent_text
     objs = []
     for _ in range(n_objs):
         objs.append(ig.obj(model.root))
